@@ -1214,3 +1214,150 @@ Proof. intros sk d H. eexists. split; [apply relay_spec; exact H | reflexivity].
 
 Lemma gas_limit_meta : forall sk dk d p, wf sk dk d = true -> relay sk dk d = Ok p -> p_gas p = spec_gas sk dk d.
 Proof. intros sk dk d p H E. rewrite (relay_spec sk dk d H) in E. injection E as <-. reflexivity. Qed.
+
+(* ---- sequences --------------------------------------------------------------------------------------------------------- *)
+
+Lemma forallb_ext_local : forall (A : Type) (f g : A -> bool) (l : list A),
+  (forall a, f a = g a) -> forallb f l = forallb g l.
+Proof. intros A f g l H. induction l as [|a l IH]; [reflexivity|]. cbn [forallb]. now rewrite H, IH. Qed.
+
+Definition read_ok_it (it : item) (fr : bool * res proposal) : bool :=
+  let '(sk, dk, d) := it in read_ok sk dk d (fst fr) (snd fr).
+
+Lemma item_ok_fast_eq : forall it rs, item_ok_fast it rs = forallb (read_ok_it it) rs.
+Proof.
+  intros [[sk dk] d] rs. destruct rs as [|fr0 rs0]; [reflexivity|].
+  set (rs := fr0 :: rs0). unfold item_ok_fast. fold rs.
+  assert (Hgoal : (if wf sk dk d then
+            let sp := spec_proposal sk dk d in
+            forallb (fun fr => match snd fr with Ok p => proposal_eqb p sp | Err => fst fr | _ => false end) rs
+          else true) = forallb (read_ok_it (sk, dk, d)) rs).
+  { destruct (wf sk dk d) eqn:Hwf.
+    - cbv zeta. apply forallb_ext_local. intros [f r]. unfold read_ok_it, read_ok, spec_ok. rewrite Hwf. cbn [fst snd].
+      destruct r as [p| | |]; cbn [is_err].
+      + now rewrite Bool.andb_false_r.
+      + now rewrite Bool.andb_true_r, Bool.orb_false_r.
+      + now rewrite Bool.andb_false_r.
+      + now rewrite Bool.andb_false_r.
+    - symmetry. apply forallb_forall. intros [f r] _. unfold read_ok_it, read_ok, spec_ok. rewrite Hwf.
+      apply Bool.orb_true_r. }
+  exact Hgoal.
+Qed.
+
+Lemma reads_of_forallb : forall (P : bool * res proposal -> bool) occs i,
+  forallb P (reads_of occs i) = true <->
+  (forall o, In o occs -> o_dep o = i -> forall r, In r (o_reads o) -> P (o_fail o, r) = true).
+Proof.
+  intros P occs i. rewrite forallb_forall. unfold reads_of. split.
+  - intros H o Ho Hi r Hr. apply H. apply in_flat_map. exists o. split; [exact Ho|].
+    rewrite <- Hi, Nat.eqb_refl. now apply in_map.
+  - intros H fr Hfr. apply in_flat_map in Hfr. destruct Hfr as (o & Ho & Hin).
+    destruct (Nat.eqb (o_dep o) i) eqn:E; [|contradiction].
+    apply Nat.eqb_eq in E. apply in_map_iff in Hin. destruct Hin as (r & <- & Hr). now apply (H o).
+Qed.
+
+Lemma items_ok_fast_spec : forall pool occs i,
+  items_ok_fast pool occs i = true <->
+  (forall j it, nth_error pool j = Some it -> forallb (read_ok_it it) (reads_of occs (i + j)) = true).
+Proof.
+  induction pool as [|it0 rest IH]; intros occs i; cbn [items_ok_fast].
+  - split; [|reflexivity]. intros _ j it Hj. destruct j; discriminate.
+  - rewrite Bool.andb_true_iff, item_ok_fast_eq, IH. split.
+    + intros [H0 HS] j it Hj. destruct j as [|j].
+      * cbn in Hj. injection Hj as <-. now rewrite Nat.add_0_r.
+      * cbn in Hj. rewrite Nat.add_succ_r. now apply (HS j).
+    + intros H. split.
+      * specialize (H 0%nat it0 eq_refl). now rewrite Nat.add_0_r in H.
+      * intros j it Hj. specialize (H (S j) it Hj). now rewrite Nat.add_succ_r in H.
+Qed.
+
+Lemma seq_ok_fast_eq : forall pool occs, seq_ok_fast pool occs = seq_ok pool occs.
+Proof.
+  intros pool occs. apply Bool.eq_iff_eq_true. unfold seq_ok_fast, seq_ok.
+  rewrite Bool.andb_true_iff, items_ok_fast_spec, !forallb_forall. split.
+  - intros [Hr Hi] o Ho. specialize (Hr o Ho). apply Nat.ltb_lt in Hr.
+    unfold occ_ok. destruct (nth_error pool (o_dep o)) as [it|] eqn:E.
+    + specialize (Hi _ _ E). cbn [Nat.add] in Hi.
+      destruct it as [[sk dk] d]. apply forallb_forall. intros r Hrd.
+      exact (proj1 (reads_of_forallb _ occs (o_dep o)) Hi o Ho eq_refl r Hrd).
+    + apply nth_error_None in E. lia.
+  - intros H. split.
+    + intros o Ho. specialize (H o Ho). unfold occ_ok in H. apply Nat.ltb_lt.
+      destruct (nth_error pool (o_dep o)) eqn:E; [|discriminate].
+      apply nth_error_Some. congruence.
+    + intros j it Hj. cbn [Nat.add]. apply reads_of_forallb. intros o Ho Hd r Hrd.
+      specialize (H o Ho). unfold occ_ok in H. rewrite Hd, Hj in H. destruct it as [[sk dk] d].
+      rewrite forallb_forall in H. exact (H r Hrd).
+Qed.
+
+Lemma step_relay_ok : forall pool s, fst s < length pool ->
+  occ_ok pool (mkOcc (fst s) (snd s) [step_relay pool s]) = true.
+Proof.
+  intros pool [i f] Hlt. cbn [fst snd] in *. unfold occ_ok, step_relay. cbn [o_dep o_fail o_reads fst snd].
+  destruct (nth_error pool i) as [[[sk dk] d]|] eqn:E.
+  - cbn [forallb]. rewrite Bool.andb_true_r. unfold read_ok. destruct f; [reflexivity|].
+    cbn [andb orb]. apply spec_ok_model.
+  - apply nth_error_None in E. lia.
+Qed.
+
+Lemma seq_ok_model : forall pool steps, steps_wf pool steps = true ->
+  seq_ok pool (map (model_occ pool) steps) = true.
+Proof.
+  intros pool steps Hwf. unfold seq_ok. apply forallb_forall. intros o Ho.
+  apply in_map_iff in Ho. destruct Ho as ([s k] & <- & Hin).
+  unfold steps_wf in Hwf. rewrite forallb_forall in Hwf. specialize (Hwf _ Hin). cbn [fst] in Hwf.
+  apply Nat.ltb_lt in Hwf. pose proof (step_relay_ok pool s Hwf) as H1.
+  unfold occ_ok, model_occ in *. cbn [o_dep o_fail o_reads fst snd] in *.
+  destruct (nth_error pool (fst s)) as [[[sk dk] d]|]; [|discriminate].
+  cbn [forallb] in H1. rewrite Bool.andb_true_r in H1.
+  apply forallb_forall. intros r Hr. apply repeat_spec in Hr. now subst r.
+Qed.
+
+(* the model's answer for a step depends on that step's deposit alone: not on its position, not on the other
+   steps, not on the other deposits of the pool *)
+Lemma seq_relay_pointwise : forall pool pre s post,
+  nth_error (seq_relay pool (pre ++ s :: post)) (length pre) = Some (step_relay pool s).
+Proof.
+  intros pool pre s post. unfold seq_relay. rewrite map_app. cbn [map].
+  rewrite nth_error_app2; rewrite map_length; [|lia]. now rewrite Nat.sub_diag.
+Qed.
+
+Lemma step_relay_local : forall pool pool' i sk dk d,
+  nth_error pool i = Some (sk, dk, d) -> nth_error pool' i = Some (sk, dk, d) ->
+  step_relay pool (i, false) = relay sk dk d /\ step_relay pool' (i, false) = relay sk dk d.
+Proof. intros pool pool' i sk dk d H H'. unfold step_relay. cbn [fst snd]. unfold item in *. rewrite H, H'. split; reflexivity. Qed.
+
+Lemma seq_position_independent : forall pool pool' pre pre' post post' i j sk dk d,
+  nth_error pool i = Some (sk, dk, d) -> nth_error pool' j = Some (sk, dk, d) ->
+  nth_error (seq_relay pool (pre ++ (i, false) :: post)) (length pre) = Some (relay sk dk d) /\
+  nth_error (seq_relay pool' (pre' ++ (j, false) :: post')) (length pre') = Some (relay sk dk d).
+Proof.
+  intros pool pool' pre pre' post post' i j sk dk d H H'. rewrite !seq_relay_pointwise.
+  unfold step_relay. cbn [fst snd]. unfold item in *. rewrite H, H'. split; reflexivity.
+Qed.
+
+(* what the judge accepts: every reading of every step on a well-formed deposit is the reference proposal
+   (or nothing, where the lookup was made to fail); hence a deposit handled twice gives equal proposals and a
+   proposal read twice is unchanged *)
+Lemma seq_ok_sound : forall pool occs o sk dk d r,
+  seq_ok pool occs = true -> In o occs -> nth_error pool (o_dep o) = Some (sk, dk, d) -> wf sk dk d = true ->
+  In r (o_reads o) -> r = Ok (spec_proposal sk dk d) \/ (o_fail o = true /\ r = Err).
+Proof.
+  intros pool occs o sk dk d r H Ho E Hwf Hr. unfold seq_ok in H. rewrite forallb_forall in H.
+  specialize (H o Ho). unfold occ_ok in H. rewrite E in H. rewrite forallb_forall in H. specialize (H r Hr).
+  unfold read_ok in H. apply Bool.orb_true_iff in H. destruct H as [H|H].
+  - right. apply Bool.andb_true_iff in H. destruct H as [Hf He]. split; [exact Hf|].
+    destruct r; try discriminate. reflexivity.
+  - left. now apply spec_ok_sound.
+Qed.
+
+Lemma seq_repeat_equal : forall pool occs o1 o2 sk dk d r1 r2,
+  seq_ok pool occs = true -> In o1 occs -> In o2 occs ->
+  nth_error pool (o_dep o1) = Some (sk, dk, d) -> nth_error pool (o_dep o2) = Some (sk, dk, d) ->
+  wf sk dk d = true -> In r1 (o_reads o1) -> In r2 (o_reads o2) -> r1 <> Err -> r2 <> Err -> r1 = r2.
+Proof.
+  intros pool occs o1 o2 sk dk d r1 r2 H H1 H2 E1 E2 Hwf R1 R2 N1 N2.
+  destruct (seq_ok_sound _ _ _ _ _ _ _ H H1 E1 Hwf R1) as [->|[_ ->]]; [|contradiction].
+  destruct (seq_ok_sound _ _ _ _ _ _ _ H H2 E2 Hwf R2) as [->|[_ ->]]; [|contradiction].
+  reflexivity.
+Qed.
